@@ -179,6 +179,51 @@ fn none_checks<T>(ctx: &mut Ctx, name: &str) where T: Into<Value> + ValueType + 
         if ok != expect && !(tag(&v) == "Array") {
             ctx.oracle_fail("extraction as a different type did not fail (or the own variant failed)", serde_json::json!({"type": name, "source": format!("{:?}", v), "extracted": ok}));
         }
+        // the same through Option<T>: Some only from a value of the own variant, None only from the own variant's NULL, an error otherwise
+        if tag(&v) != "Array" {
+            let own = tag(&v) == tag(&T::null());
+            let got = catch(|| <Option<T> as ValueType>::try_from(v.clone()).map(|o| o.is_some()).ok()).flatten();
+            let want = if own { Some(!is_null(&v)) } else { None };
+            if got != want {
+                ctx.oracle_fail("extraction as Option of a different type did not fail (or the own variant failed)", serde_json::json!({"type": format!("Option<{name}>"), "source": format!("{:?}", v), "extracted_is_some": got, "expected_is_some": want}));
+            }
+        }
+    }
+}
+
+/// arrays: a vector is extracted only when every element is a non-NULL value of the element variant; otherwise extraction fails
+/// (an error or a panic) — it never returns a shorter or different vector
+fn array_checks<T>(ctx: &mut Ctx, name: &str, good: Vec<T>, ty: sea_query::ArrayType, foreign: Value) where T: Into<Value> + ValueType + Nullable + Clone + std::fmt::Debug + PartialEq + sea_query::with_array::NotU8, Vec<T>: ValueType {
+    let elems: Vec<Value> = good.iter().cloned().map(Into::into).collect();
+    let null = T::null();
+    let variants: Vec<(&str, Vec<Value>, bool)> = vec![
+        ("all elements present", elems.clone(), true),
+        ("empty", vec![], true),
+        ("a NULL element in the middle", { let mut v = elems.clone(); v.insert(1.min(v.len()), null.clone()); v }, false),
+        ("only NULL elements", vec![null.clone(), null.clone()], false),
+        ("an element of another variant", { let mut v = elems.clone(); v.insert(1.min(v.len()), foreign.clone()); v }, false),
+        ("another variant first", { let mut v = elems.clone(); v.insert(0, foreign.clone()); v }, false),
+    ];
+    for (what, vs, ok_expected) in variants {
+        let n = vs.len();
+        let src = Value::Array(ty.clone(), Some(Box::new(vs)));
+        ctx.eval_only(&format!("array {name} {what}"), true);
+        ctx.count("array.checks");
+        let got = catch(|| <Vec<T> as ValueType>::try_from(src.clone()).ok()).flatten();
+        match (ok_expected, &got) {
+            (true, Some(v)) if v.len() == n && (n == 0 || *v == good) => {}
+            (false, None) => {}
+            _ => ctx.oracle_fail("array extraction returned a vector although an element is NULL / of another variant (or failed on a well-formed array)",
+                serde_json::json!({"type": format!("Vec<{name}>"), "case": what, "source": format!("{:?}", src), "got": format!("{:?}", got)})),
+        }
+        // through Option<Vec<T>> as well
+        let goto = catch(|| <Option<Vec<T>> as ValueType>::try_from(src.clone()).ok()).flatten();
+        match (ok_expected, &goto) {
+            (true, Some(Some(v))) if v.len() == n => {}
+            (false, None) => {}
+            _ => ctx.oracle_fail("array extraction returned a vector although an element is NULL / of another variant (or failed on a well-formed array)",
+                serde_json::json!({"type": format!("Option<Vec<{name}>>"), "case": what, "source": format!("{:?}", src), "got": format!("{:?}", goto)})),
+        }
     }
 }
 
@@ -243,6 +288,11 @@ pub fn run(ctx: &mut Ctx) {
             let n = r.below(4); rt(ctx, "Vec<String>", (0..n).map(|_| random_string(&mut r, 4)).collect::<Vec<String>>(), &|a, b| a == b);
         }
     }
+    array_checks::<i32>(ctx, "i32", vec![1, -2, 3], sea_query::ArrayType::Int, Value::BigInt(Some(2)));
+    array_checks::<i64>(ctx, "i64", vec![5, 6], sea_query::ArrayType::BigInt, Value::Int(Some(2)));
+    array_checks::<String>(ctx, "String", vec!["a".to_string(), "b".to_string()], sea_query::ArrayType::String, Value::Int(Some(2)));
+    array_checks::<bool>(ctx, "bool", vec![true, false], sea_query::ArrayType::Bool, Value::String(Some(Box::new("t".into()))));
+    array_checks::<f64>(ctx, "f64", vec![1.5, 2.5], sea_query::ArrayType::Double, Value::Float(Some(1.0)));
     none_checks::<bool>(ctx, "bool"); none_checks::<i8>(ctx, "i8"); none_checks::<i16>(ctx, "i16"); none_checks::<i32>(ctx, "i32"); none_checks::<i64>(ctx, "i64");
     none_checks::<u8>(ctx, "u8"); none_checks::<u16>(ctx, "u16"); none_checks::<u32>(ctx, "u32"); none_checks::<u64>(ctx, "u64"); none_checks::<f32>(ctx, "f32"); none_checks::<f64>(ctx, "f64");
     none_checks::<char>(ctx, "char"); none_checks::<String>(ctx, "String"); none_checks::<Vec<u8>>(ctx, "Vec<u8>"); none_checks::<serde_json::Value>(ctx, "Json");
